@@ -136,6 +136,75 @@ def pickled_shape(ck, region):
     return "+".join(parts) or "boundary"
 
 
+def ins_part(scratch, tier, seed, v, stats):
+    """Importance sampler: a signal before/after every step of an iteration; the handler must exit with
+    the configured code, leave the last boundary checkpoint byte-identical, and the run must resume to
+    a valid result (C03/C05 clauses by trace validation)."""
+    import hashlib
+
+    from .nsruns import ins_spec, validate_ins
+    from .observe_ins import INSObserver
+
+    iters = [1] if tier == "quick" else [0, 1, 2, 3]
+    specs = []
+    n = 0
+    for it in iters:
+        for m in INSObserver.INS_STEPS:
+            for when in (("before",) if tier == "quick" else ("before", "after")):
+                s = ins_spec("gauss2", seed * 100 + 31, 100, max_iteration=5)
+                s["signal_handling"] = True
+                s["signal_exit"] = 130 if n % 4 else 9
+                s["exit_code"] = s["signal_exit"]
+                # checkpoint() is called after iteration += 1
+                s["extra_by_proc"] = {"0": {"ins_signal": {"method": m, "iteration": it + (m == "checkpoint"),
+                                                            "when": when,
+                                                            "signum": (15, 2, 14)[n % 3]}}}
+                s["plan"] = {"method": m, "iteration": it, "when": when}
+                specs.append(s)
+                n += 1
+    hs = run_corpus(specs, scratch / "ins_sig")
+    good = []
+    for h in hs:
+        raw = load_events([f for f in h["events"] if os.path.exists(f)])
+        sig = next((e for e in raw if e["ev"] == "signal"), None)
+        plan = h["spec"]["plan"]
+        if sig is None:
+            v.mismatch(f"INS signal point not reached: {plan} codes={h['codes']}")
+            continue
+        stats["ins_injected"] = stats.get("ins_injected", 0) + 1
+        where = f"INS: signal {sig['signum']} {plan['when']} {plan['method']} in iteration {plan['iteration']}"
+        h["where"] = where
+        replay = {"spec": h["spec"], "codes": h["codes"]}
+        if h["codes"][0] != h["spec"]["exit_code"]:
+            v.violation("ins:exit_code", f"{where}: handler exited with {h['codes'][0]}, configured "
+                        f"{h['spec']['exit_code']}", replay)
+        # the boundary checkpoint must be intact (the resumed process reads it first, so compare via the
+        # digest the resumed process restores: equality with the last ckpt event is checked by TLC (C12 clauses));
+        # here: the file on disk right after the exit is the file seen right before the signal
+        ck = [e for e in raw if e["proc"] == 0 and e["ev"] == "ckpt" and e["seq"] > sig["seq"]]
+        if ck:
+            v.violation("ins:checkpoint_written_mid_iteration",
+                        f"{where}: the handler wrote a checkpoint although the importance sampler cannot "
+                        f"checkpoint mid iteration", replay)
+        if len(h["codes"]) < 2 or h["codes"][-1] != 0:
+            err = ""
+            try:
+                err = open(h["events"][-1] + ".err").read().strip().splitlines()[-1]
+            except (OSError, IndexError):
+                pass
+            v.violation("ins:resumed_run_failed", f"{where}: the resumed run did not complete "
+                        f"(codes {h['codes']}): {err}", replay)
+        good.append(h)
+    records, istats, _ = validate_ins(good, scratch, tag="ins_sig") if good else ([], {"states": 0}, None)
+    for r in records:
+        if r["k"] == "P" and (r["p"] in ("C03", "C04", "C05") or
+                              (r["p"] == "C12" and r["c"].startswith("restored"))):
+            h = good[r["h"]]
+            v.violation("ins:" + r["c"].split(":")[0], f"{h['where']}: after the resume clause {r['p']}/{r['c']} fails",
+                        {"spec": h["spec"], "event": r["ev"]})
+    return len(specs), istats.get("states", 0)
+
+
 def main(tier: str) -> int:
     seed = seed_from_env()
     v = Verdict(PROP, tier, seed, "fault_enumeration")
@@ -235,9 +304,12 @@ def main(tier: str) -> int:
                        if region in ("consume_sample", "finalise") and h["shape"] != "boundary" else clause)
                 v.violation(sig, f"{h['where']}: after the resume clause {r['p']}/{clause} fails at event {r['l']}",
                             {"spec": h["spec"], "signal": h["sig"], "clause": r["c"], "event": r["ev"]})
+        n_ins, ins_states = ins_part(scratch, tier, seed, v, stats)
         v.coverage = {
-            "evaluations": stats["injected"],
-            "distinct_nontrivial": len({(p[0], p[1]) for p in plans}),
+            "ins_injection_points": n_ins, "ins_injected": stats.get("ins_injected", 0),
+            "ins_trace_states": ins_states,
+            "evaluations": stats["injected"] + stats.get("ins_injected", 0),
+            "distinct_nontrivial": len({(p[0], p[1]) for p in plans}) + n_ins,
             "rule": "injection points = (iteration, index of the source line executed) for every line of "
                     "nessai/samplers, evidence.py and flowsampler.py executed during the chosen iterations and during "
                     "finalise, plus every 40th (7th thorough) line of the other nessai files (proposal population, "
